@@ -222,7 +222,8 @@ def run(ctx):
     if cases and not ctx.corr_broken and not ctx.violations:
         for k in ("input_with_localpref_conflict", "unnumbered", "disable_mp", "neighbor_without_advertisement", "repeated_prefix",
                   "adv_with_localpref", "large_community", "community", "neighbor_with_v4_and_v6", "multi_vrf", "multi_neighbor",
-                  "histories", "hist_set_ops", "hist_final_repeated_prefix", "histories_through_debouncer_and_file"):
+                  "histories", "hist_set_ops", "hist_final_repeated_prefix", "histories_through_debouncer_and_file",
+                  "hist_rejected_set", "hist_resync"):
             if st.get(k, 0) == 0:
                 raise Exception("generator degenerate: counter %s is zero: %r" % (k, st))
 
